@@ -59,6 +59,9 @@ package configuration
 //@ ghost writtenCfgCommitted int
 //@ ghost writtenCfgApplied int
 //@ ghost writtenCfgIndex int
+// the applied values as the last status write handed them to the store (the store clears the field afterwards)
+//@ ghost writtenAppliedDom map[string]bool
+//@ ghost writtenAppliedVal map[string]int
 //@ ghost cfgValueWrites int
 //@ ghost cfgCreates int
 
@@ -111,8 +114,9 @@ package configuration
 //@   guard {C10} cfg.term-monotone: configuration.Status.Mastership.Term >= configuration.snapTerm && configuration.Status.Applied.Mastership.Term >= configuration.snapAppliedTerm
 //@   guard {C10} cfg.applied-term-le-term: configuration.Status.Applied.Mastership.Term <= configuration.Status.Mastership.Term
 //@   guard {C01,C07} cfg.status-write-keeps-values: configuration.Index == configuration.snapIndex && configuration.Values == configuration.snapValues && domOf(configuration.Values) == configuration.snapValuesDom && valsOf(configuration.Values) == configuration.snapValuesVal
-//@   modifies configuration.ObjectMeta, configuration.Status.Applied.Values, configuration.tracked, configuration.snapIndex, configuration.snapProposed, configuration.snapCommitted, configuration.snapApplied, configuration.snapTerm, configuration.snapAppliedTerm, configuration.snapState, configuration.snapMaster, configuration.snapValues, configuration.snapAppliedValues, configuration.snapValuesDom, configuration.snapValuesVal, configuration.snapAppliedDom, configuration.snapAppliedVal, storedCfgCommitted, storedCfgApplied, cfgStatusWrites, writtenCfgTerm, writtenCfgMaster, writtenCfgAppliedTerm, writtenCfgState, writtenCfgProposed, writtenCfgCommitted, writtenCfgApplied, writtenCfgIndex
+//@   modifies configuration.ObjectMeta, configuration.Status.Applied.Values, configuration.tracked, configuration.snapIndex, configuration.snapProposed, configuration.snapCommitted, configuration.snapApplied, configuration.snapTerm, configuration.snapAppliedTerm, configuration.snapState, configuration.snapMaster, configuration.snapValues, configuration.snapAppliedValues, configuration.snapValuesDom, configuration.snapValuesVal, configuration.snapAppliedDom, configuration.snapAppliedVal, storedCfgCommitted, storedCfgApplied, cfgStatusWrites, writtenCfgTerm, writtenCfgMaster, writtenCfgAppliedTerm, writtenCfgState, writtenCfgProposed, writtenCfgCommitted, writtenCfgApplied, writtenCfgIndex, writtenAppliedDom, writtenAppliedVal
 //@   ensures cfgStatusWrites == old(cfgStatusWrites) + 1
+//@   ensures writtenAppliedDom == old(domOf(configuration.Status.Applied.Values)) && writtenAppliedVal == old(valsOf(configuration.Status.Applied.Values))
 //@   ensures writtenCfgTerm == configuration.Status.Mastership.Term && writtenCfgMaster == configuration.Status.Mastership.Master && writtenCfgAppliedTerm == configuration.Status.Applied.Mastership.Term && writtenCfgState == configuration.Status.State && writtenCfgProposed == configuration.Status.Proposed.Index && writtenCfgCommitted == configuration.Status.Committed.Index && writtenCfgApplied == configuration.Status.Applied.Index && writtenCfgIndex == configuration.Index
 //@   ensures err == nil ==> cfgSnapshotted(configuration) && storedCfgCommitted == configuration.Status.Committed.Index && storedCfgApplied == configuration.Status.Applied.Index
 //@   ensures err != nil ==> !configuration.tracked && storedCfgCommitted == old(storedCfgCommitted) && storedCfgApplied == old(storedCfgApplied)
@@ -137,17 +141,23 @@ package configuration
 // versions and revisions only grow, a record that was never read cannot be written, and the write
 // goes to the record's own key.
 //@ func (*configurationStore).Update(s, ctx, configuration) (err)
-//@   props C15
+//@   props C15, C03, C07
 //@   requires s != nil && s.configurations != nil && configuration != nil
 //@   ensures {C15} version-and-revision-grow: err == nil ==> configuration.Version > old(configuration.Version) && configuration.Revision == old(configuration.Revision) + 1
 //@   ensures {C15} unread-record-refused: old(configuration.Version) == 0 || old(configuration.Revision) == 0 ==> err != nil && condWrites == old(condWrites)
 //@   ensures {C15} one-conditional-write-to-own-key: condWrites <= old(condWrites) + 1 && inserts == old(inserts) && (condWrites > old(condWrites) ==> lastWriteKey == configuration.ID) && (err == nil ==> condWrites == old(condWrites) + 1)
+// the two halves of an update are not atomic: the record (which publishes the committed index) is written only
+// after the path values it stands for have been stored; were it the other way round, a fault between the two
+// would leave a configuration whose index says "merged" while the values are missing, and the retry of the commit
+// step (which looks at the index) would acknowledge the change without ever storing it
+//@   ensures {C15,C03,C07} values-stored-before-the-record: condWrites > old(condWrites) && old(configuration.Values) != nil ==> lastWriteValueStores == old(valueStores) + 1
 //@ func (*configurationStore).UpdateStatus(s, ctx, configuration) (err)
-//@   props C15
+//@   props C15, C04, C07
 //@   requires s != nil && s.configurations != nil && configuration != nil
 //@   ensures {C15} version-grows-revision-kept: err == nil ==> configuration.Version > old(configuration.Version) && configuration.Revision == old(configuration.Revision)
 //@   ensures {C15} unread-record-refused: old(configuration.Version) == 0 || old(configuration.Revision) == 0 ==> err != nil && condWrites == old(condWrites)
 //@   ensures {C15} one-conditional-write-to-own-key: condWrites <= old(condWrites) + 1 && inserts == old(inserts) && (condWrites > old(condWrites) ==> lastWriteKey == configuration.ID) && (err == nil ==> condWrites == old(condWrites) + 1)
+//@   ensures {C15,C04,C07} applied-values-stored-before-the-record: condWrites > old(condWrites) && old(configuration.Status.Applied.Values) != nil ==> lastWriteValueStores == old(valueStores) + 1
 //@ func (*configurationStore).Create(s, ctx, configuration) (err)
 //@   props C15
 //@   requires s != nil && s.configurations != nil && configuration != nil
@@ -165,4 +175,5 @@ package configuration
 //@   modifies nothing
 //@ func (*configurationStore).store(s, ctx, store, values) (err)
 //@   trusted
-//@   modifies nothing
+//@   modifies valueStores
+//@   ensures valueStores == old(valueStores) + 1
